@@ -524,6 +524,81 @@ def _overflows(s):
         return True
 
 
+# ---------------------------------------------------------------- (e) argument values that are not scalars
+JUNK = [[], [1], {}, {"a": 1}, None, ["true"], [[]]]
+
+
+def arg_sites(doc, path=()):
+    """paths of every plugin `args` object in a config document"""
+    if isinstance(doc, dict):
+        if isinstance(doc.get("args"), dict) and "name" in doc:
+            yield path + ("args",)
+        for k, val in doc.items():
+            yield from arg_sites(val, path + (k,))
+    elif isinstance(doc, list):
+        for i, val in enumerate(doc):
+            yield from arg_sites(val, path + (i,))
+
+
+def judge_shapes(v, tier, seed):
+    """a JSON array / object / null as the value of a plugin argument has no valid reading in any argument type: the document has
+    to be rejected - at the CLI and as a drop-in - and must never be accepted with that argument (or the ones after it) dropped"""
+    docs = []
+    for site in arg_sites(SEED_CLI):
+        args = get_at(SEED_CLI, site)
+        for k in sorted(args):
+            for j in JUNK:
+                d = copy.deepcopy(SEED_CLI)
+                get_at(d, site)[k] = j
+                docs.append((json.dumps(d), "%s.%s <- %s" % ("/".join(map(str, site)), k, json.dumps(j))))
+        for j in JUNK[:4]:
+            # an extra junk-valued argument in front of / behind the valid ones (names sort first / last)
+            for extra in ("aaa_extra", "zzz_extra"):
+                d = copy.deepcopy(SEED_CLI)
+                get_at(d, site)[extra] = j
+                docs.append((json.dumps(d), "%s.%s <- %s" % ("/".join(map(str, site)), extra, json.dumps(j))))
+    # the junk hides a later argument that is itself invalid
+    d = copy.deepcopy(SEED_CLI)
+    d["rulesets"][1]["detectors"][0][1]["args"] = {"cgroup": "w", "debug": [1], "negate": "garbage"}
+    docs.append((json.dumps(d), "exists: debug=[1] in front of negate=garbage"))
+    d = copy.deepcopy(SEED_CLI)
+    d["rulesets"][1]["detectors"][0][1]["args"] = {"cgroup": "w", "debug": {}, "no_such_argument": "1"}
+    docs.append((json.dumps(d), "exists: debug={} in front of an undeclared argument"))
+    res = run_cli([x for x, _ in docs])
+    n = 0
+    for (doc, meta), (rc, err) in zip(docs, res):
+        n += 1
+        if rc == 0:
+            v.bad("non-scalar-argument-accepted", "cli", "oomd --check-config accepts a config in which %s" % meta)
+        elif rc != 1:
+            ck = cli_crash_key(rc, err)
+            v.bad(ck[0], ck[1], "oomd --check-config on %s exits %s\n%s" % (meta, rc, ck[2]))
+    # run-time drop-in path, scripted plugins: refused, or (never) applied with exactly the given arguments
+    ddocs = []
+    for site in arg_sites(SEED_DROPIN):
+        for j in JUNK:
+            for extra in ("aaa_extra", "zzz_extra", "id"):
+                d = copy.deepcopy(SEED_DROPIN)
+                get_at(d, site)[extra] = j
+                ddocs.append((json.dumps(d), "%s.%s <- %s" % ("/".join(map(str, site)), extra, json.dumps(j))))
+    qs = [{"q": "dropin_load", "base": json.dumps(SEED_BASE), "dropin": x} for x, _ in ddocs]
+    ans = pure.run_queries(qs)
+    for (doc, meta), (a, crash) in zip(ddocs, ans):
+        n += 1
+        if crash or a is None or "uncaught" in (a or {}):
+            continue  # judged by the totality part
+        if a.get("schedule") is True and a.get("apply") == ["t.json:ok"]:
+            v.bad("non-scalar-argument-accepted", "drop-in", "a drop-in in which %s was applied" % meta)
+    v.count("non_scalar_argument_documents", n)
+    return n > 0, n
+
+
+def get_at(doc, path):
+    for k in path:
+        doc = doc[k]
+    return doc
+
+
 # ---------------------------------------------------------------- (d) effective values across several loads in one process
 EFF_SPECS = ["10%", "50%", "1%", "99%", "37%", "100%", "1536M", "1.5G", "1.5G 32K", "2048", "32K", "3G 1M 7K", "1", "0.5G"]
 
@@ -636,7 +711,7 @@ def judge_effective(v, tier, seed):
 
 
 def cases(seed, tier):
-    for part in ("totality", "validity", "numbers", "effective"):
+    for part in ("totality", "validity", "numbers", "effective", "shapes"):
         yield core.Case("C12-" + part, [], {"part": part, "tier": tier, "seed": seed}, driver="custom")
 
 
@@ -647,7 +722,7 @@ def run_batch(driver, flavor, scns):
 def judge(case, results):
     v = core.Verdict()
     m = case.meta
-    fn = {"totality": judge_totality, "validity": judge_validity, "numbers": judge_numbers, "effective": judge_effective}[m["part"]]
+    fn = {"totality": judge_totality, "validity": judge_validity, "numbers": judge_numbers, "effective": judge_effective, "shapes": judge_shapes}[m["part"]]
     nt, n = fn(v, m["tier"], m["seed"])
     v.count("inputs:" + m["part"], n)
     v.nontrivial = nt
